@@ -22,6 +22,8 @@ def letters(n, caps=False):
 
 
 class MObj:
+    ghost = False
+
     def __init__(self, oid, gen, iface, t):
         self.id = oid
         self.gen = gen
@@ -38,6 +40,26 @@ class MObj:
         return (self.iface, self.id, self.gen)
 
 
+class MGhost:
+    """an object whose creation was never seen (log started mid-session): known only by what the line says about it"""
+    ghost = True
+    gen = None
+    created = None
+    destroyed = None
+    alive = True
+    alive_at_use = True
+
+    def __init__(self, oid, iface):
+        self.id = oid
+        self.iface = iface
+
+    def label(self):
+        return 'unresolved %s@%d?' % (self.iface, self.id)
+
+    def key(self):
+        return ('?', self.iface, self.id)
+
+
 class MConn:
     def __init__(self, name):
         self.name = name
@@ -46,7 +68,9 @@ class MConn:
         self.role = None
         self.open = True
 
-    def latest(self, oid):
+    def latest(self, oid, iface=None):
+        if oid not in self.db and iface is not None:
+            return MGhost(oid, iface)
         return self.db[oid][-1]
 
     def alive_set(self):
@@ -61,7 +85,7 @@ class MConn:
                 self.role = 'client' if m['sent'] else 'server'
             else:
                 self.role = 'unknown'
-        tgt = self.latest(m['id'])
+        tgt = self.latest(m['id'], m['iface'])
         tgt_alive = tgt.alive
         destroyed = None
         if tgt.id == 1 and tgt.gen == 0 and m['name'] == 'delete_id' and m['args']:
@@ -88,7 +112,7 @@ class MConn:
                 args_alive.append(True)
                 created.append(o)
             elif a[0] == 'obj' and a[2] is not None:
-                o = self.latest(a[2])
+                o = self.latest(a[2], a[1])
                 argobjs.append(o)
                 args_alive.append(o.alive)
             else:
